@@ -288,12 +288,11 @@ func (db *DB) ListKeys() [][]byte {
 	iterator := db.index.Iterator(false)
 	defer iterator.Close()
 	vhook.Point("listkeys.afterIter")
-	keys := make([][]byte, db.index.Size())
-	var idx int
+	keys := make([][]byte, 0)
 	// 直接通过迭代器遍历获取所有 key
+	// 迭代器为快照, 其元素个数与此刻的索引大小无关, 不能依据后者分配下标
 	for iterator.Rewind(); iterator.Valid(); iterator.Next() {
-		keys[idx] = iterator.Key()
-		idx++
+		keys = append(keys, iterator.Key())
 	}
 	return keys
 }
